@@ -1041,10 +1041,11 @@ type modSet struct {
 	heapKeys map[string]bool
 	heapAll  bool
 	ghosts   map[string]bool
+	called   map[string]bool // simple names of the callees called
 }
 
 func (x *Exec) modifiedIn(nodes ...ast.Node) *modSet {
-	m := &modSet{vars: map[*types.Var]bool{}, elems: map[*types.Var]bool{}, heapKeys: map[string]bool{}, ghosts: map[string]bool{}}
+	m := &modSet{vars: map[*types.Var]bool{}, elems: map[*types.Var]bool{}, heapKeys: map[string]bool{}, ghosts: map[string]bool{}, called: map[string]bool{}}
 	var lhs func(e ast.Expr)
 	lhs = func(e ast.Expr) {
 		switch e := e.(type) {
@@ -1175,6 +1176,9 @@ heap:
 }
 
 func (x *Exec) markCallEffects(m *modSet, call *ast.CallExpr) {
+	if n := calleeSimpleName(call); n != "" && m.called != nil {
+		m.called[n] = true
+	}
 	// builtins writing through arguments
 	if id, ok := call.Fun.(*ast.Ident); ok {
 		if b, ok := x.info.Uses[id].(*types.Builtin); ok {
@@ -1323,6 +1327,27 @@ func (x *Exec) markContractMod(m *modSet, c *Contract, fn *types.Func, call *ast
 
 func (x *Exec) havoc(h *State, m *modSet) {
 	x.bumpFrontier(h)
+	if x.c != nil && x.c.usesCallRecords {
+		// call records: the havocked code may have made any number of calls
+		var names []string
+		for n := range m.called {
+			names = append(names, n)
+		}
+		sort.Strings(names)
+		for _, n := range names {
+			old := x.ar.mathC(newBig(0))
+			if sc, ok := h.ghosts["$calls:"+n].(Sc); ok {
+				old = sc.T
+			}
+			nv := x.freshTerm("ncalls", old.S)
+			h.add(x.ar.le(old, nv, x.ar.mathInfo()))
+			h.ghosts["$calls:"+n] = Sc{nv}
+			delete(h.ghosts, "$res:"+n)
+			for i := 0; i < 4; i++ {
+				delete(h.ghosts, fmt.Sprintf("$arg%d:%s", i, n))
+			}
+		}
+	}
 	// deterministic order
 	var vs []*types.Var
 	for v := range m.vars {
@@ -1462,10 +1487,15 @@ func (x *Exec) finish(st *State, at ast.Node) {
 	} else {
 		retName = x.site("ret", nil)
 	}
-	for _, s := range states {
-		cov := x.oblige(s, "cover", "cover."+retName, "", False, pos)
+	for i, s := range states {
+		rn := retName
+		if len(states) > 1 {
+			// deferred code split the path: one set of obligations per outcome
+			rn = fmt.Sprintf("%s~%d", retName, i+1)
+		}
+		cov := x.oblige(s, "cover", "cover."+rn, "", False, pos)
 		cov.Cover, cov.MustFail = true, true
-		x.checkPost(s, retName, pos)
+		x.checkPost(s, rn, pos)
 	}
 }
 
